@@ -74,7 +74,7 @@ def q(l):
 def render_file(sc, rng):
     out = ["// Package doc.\npackage %s\n\nfunc f() {\n" % sc["pkg"]]
     for c in sc["body"]:
-        call = "%s(%s)" % (c["f"], ", ".join(str(a) for a in c["args"]))
+        call = "%s(%s)" % (c["f"], ", ".join("x" if a == 0 else str(a) for a in c["args"]))
         out.append(rng.choice(CONTEXTS) % call)
         if rng.random() < 0.3:
             out.append("\tother(%d)\n" % rng.randint(3, 9))
@@ -88,6 +88,8 @@ def render_change(r, k, dots):
         out.append("var x, y expression")
     elif r["t"] == "fail":
         out += ["var x expression", "var y expression"]
+    elif r["t"] == "renlit":
+        pass                                   # x is not a metavariable here
     else:
         out.append("var x expression")
     out.append("@@")
@@ -133,7 +135,7 @@ def run(ctx):
         by_class[m["sc"]["class"]] = by_class.get(m["sc"]["class"], 0) + 1
     cov = dict(states=states, transitions=trans, traces_validated_against_impl=st["cases"], evaluations=st["routes"],
                distinct_nontrivial=len({(m["src"], m["all"]) for m, _, _ in results}), scenarios_by_class=by_class,
-               routes_per_scenario=7, model_drift_cases=st["drift"], exhaustive=False,
+               routes_per_scenario=8, model_drift_cases=st["drift"], exhaustive=False,
                samples=[dict(src=results[0][0]["src"], patch=results[0][0]["all"], record=results[0][1], verdict=results[0][2])],
                rule="design: every file (<=%d calls over 2 names, package p|q) x every sequence of <=%d changes (rename with optional package guard / package rename, failing step) for the command and the library loop, checked by TLC against the chain semantics; replay: TLC-chosen scenarios per class (dependent / removed / fails / plain) with 2 and 3 changes, 7 delivery routes each; distinct = distinct (source, patch text)" % (ln, n))
     return ctx.finish("model_checking", cov, ASSUME)
@@ -159,6 +161,11 @@ def execute(ctx, scs):
         cli.append(scenario(sid + "|each", base, sum((["-p", "c%d.patch" % (k + 1)] for k in range(len(changes))), []) + [TARGET]))
         cli.append(scenario(sid + "|list", base, ["-P", "list.txt", TARGET]))
         cli.append(scenario(sid + "|stdin", base, [TARGET], stdin=allp))
+        # the same change given twice is given as the same file twice
+        first = {}
+        for k, r in enumerate(sc["rules"]):
+            first.setdefault(json.dumps(r, sort_keys=True), k + 1)
+        cli.append(scenario(sid + "|same", base, sum((["-p", "c%d.patch" % first[json.dumps(r, sort_keys=True)]] for r in sc["rules"]), []) + [TARGET]))
         cli.append(scenario(sid + "|mixed", base, ["-p", "c1.patch"] + (["-P", "rest.txt"] if len(changes) > 1 else []) + [TARGET]))
         api.append(dict(id=sid + "|api", op="apply", patch=allp, name="t.go", src=src))
     recs = {r["id"]: r for r in fr.run_cli(ctx, cli, "c09")}
@@ -187,7 +194,7 @@ def execute(ctx, scs):
     for m in metas:
         sid = m["id"]
         obsreq.append(dict(id=sid + "|in", op="histobs", src=m["src"]))
-        for route in ("one", "each", "list", "stdin", "mixed"):
+        for route in ("one", "each", "list", "stdin", "mixed", "same"):
             obsreq.append(dict(id="%s|%s" % (sid, route), op="histobs", src=recs["%s|%s" % (sid, route)]["content"].get(TARGET, "")))
         a = apires[sid + "|api"]
         obsreq.append(dict(id=sid + "|api", op="histobs", src=a["out"] if not a["err"] else m["src"]))
@@ -212,13 +219,15 @@ def execute(ctx, scs):
         if i0["pkg"] != m["sc"]["pkg"] or i0["body"] != m["sc"]["body"]:
             raise Infra("rendered source of %s does not abstract back to the scenario" % sid)
         routes, evs = [], []
-        for route in ("one", "each", "list", "stdin", "mixed"):
+        for route in ("one", "each", "list", "stdin", "mixed", "same"):
             r = recs["%s|%s" % (sid, route)]
             o = ab("%s|%s" % (sid, route))
             failed = r["exit"] != 0 or r["timeout"]
             routes.append(dict(name=route, pkg=o["pkg"], body=o["body"], failed="1" if failed else "0",
                                reported="1" if (failed and TARGET.split("/")[-1] in r["stderr"]) else "0",
                                untouched="1" if r["content"].get(TARGET) == m["src"] else "0"))
+            if route == "same":
+                continue        # change names repeat there; only the result is judged
             ev = []
             for e in r["events"]:
                 if e["ev"] == "change":
@@ -236,7 +245,7 @@ def execute(ctx, scs):
             lines.append(dict(id=sid + "|" + e["route"], pkg=m["sc"]["pkg"], body=m["sc"]["body"], rules=m["sc"]["rules"], events=e["ev"],
                               hooks="1", routes=routes if e["route"] == "one" else [x for x in routes if x["name"] == e["route"]]))
         m["recs"] = {route: dict(exit=recs["%s|%s" % (sid, route)]["exit"], stderr=recs["%s|%s" % (sid, route)]["stderr"][:300],
-                                 content=recs["%s|%s" % (sid, route)]["content"].get(TARGET)) for route in ("one", "each", "list", "stdin", "mixed")}
+                                 content=recs["%s|%s" % (sid, route)]["content"].get(TARGET)) for route in ("one", "each", "list", "stdin", "mixed", "same")}
         m["api"] = a
         m["chain"] = dict(content=cur[sid], failed=chain_fail.get(sid))
     # TLC judges
